@@ -14,7 +14,7 @@ REGISTRY["C01"] = dict(
     theorems=T("C01", "C01_push_back", "C01_push_front", "C01_try_push_back", "C01_try_push_front",
                "C01_pop_back", "C01_pop_front", "C01_remove", "C01_swap", "C01_swap_remove_back",
                "C01_swap_remove_front", "C01_truncate_back", "C01_truncate_front", "C01_clear"),
-    cases=P.cases_C01, projection=proj_behaviour, oracles=[P.o_views, P.o_ledger, P.o_no_defect_panic],
+    cases=P.cases_C01, projection=proj_behaviour, oracles=[P.o_spec, P.o_views, P.o_ledger, P.o_no_defect_panic],
 )
 
 REGISTRY["C02"] = dict(
@@ -26,32 +26,32 @@ REGISTRY["C02"] = dict(
 REGISTRY["C19"] = dict(
     level="proof",
     theorems=T("C19", "C19_add_mod", "C19_sub_mod"),
-    cases=P.cases_C19, projection=proj_physical, oracles=[P.o_no_defect_panic, P.o_ledger],
+    cases=P.cases_C19, projection=proj_physical, oracles=[P.o_spec, P.o_no_defect_panic, P.o_ledger],
 )
 
 REGISTRY["C03"] = dict(level="proof", theorems=[], cases=P.cases_C03, projection=proj_behaviour,
-                       oracles=[P.o_leak, P.o_no_defect_panic])
+                       oracles=[P.o_spec, P.o_leak, P.o_no_defect_panic])
 REGISTRY["C04"] = dict(level="proof", theorems=[], cases=P.cases_C04, projection=proj_physical,
-                       oracles=[P.o_ledger, P.o_views, P.o_no_defect_panic])
+                       oracles=[P.o_spec, P.o_ledger, P.o_views, P.o_no_defect_panic])
 REGISTRY["C05"] = dict(level="proof", theorems=[], cases=P.cases_C05, projection=proj_behaviour,
                        oracles=[P.o_ledger, P.o_views, P.o_no_defect_panic])
 REGISTRY["C06"] = dict(level="proof", theorems=[], cases=P.cases_C06, projection=proj_behaviour,
                        oracles=[P.o_leak, P.o_views, P.o_no_defect_panic])
 REGISTRY["C07"] = dict(level="proof", theorems=[], cases=P.cases_C07, projection=proj_physical,
-                       oracles=[P.o_views, P.o_ledger, P.o_documented_panics])
+                       oracles=[P.o_spec, P.o_views, P.o_ledger, P.o_documented_panics])
 REGISTRY["C08"] = dict(level="proof", theorems=[], cases=P.cases_C08, projection=proj_behaviour,
-                       oracles=[P.o_views, P.o_leak, P.o_no_defect_panic])
+                       oracles=[P.o_spec, P.o_views, P.o_leak, P.o_no_defect_panic])
 REGISTRY["C09"] = dict(level="proof", theorems=[], cases=P.cases_C09, projection=proj_behaviour,
-                       oracles=[P.o_views, P.o_leak, P.o_no_defect_panic])
+                       oracles=[P.o_spec, P.o_views, P.o_leak, P.o_no_defect_panic])
 REGISTRY["C10"] = dict(level="proof", theorems=[], cases=P.cases_C10, projection=proj_behaviour,
-                       oracles=[P.o_views, P.o_ledger, P.o_no_defect_panic])
+                       oracles=[P.o_spec, P.o_views, P.o_ledger, P.o_no_defect_panic])
 REGISTRY["C11"] = dict(level="proof", theorems=[], cases=P.cases_C11, projection=proj_behaviour,
-                       oracles=[P.o_documented_panics, P.o_views])
+                       oracles=[P.o_spec, P.o_documented_panics, P.o_views])
 REGISTRY["C12"] = dict(level="proof", theorems=[], cases=P.cases_C12, projection=proj_behaviour,
-                       oracles=[P.o_leak, P.o_views, P.o_no_defect_panic])
+                       oracles=[P.o_spec, P.o_leak, P.o_views, P.o_no_defect_panic])
 REGISTRY["C13"] = dict(level="proof", theorems=[], cases=P.cases_C13, projection=proj_behaviour,
-                       oracles=[P.o_views, P.o_no_defect_panic])
+                       oracles=[P.o_spec, P.o_views, P.o_no_defect_panic])
 REGISTRY["C14"] = dict(level="proof", theorems=[], cases=P.cases_C14, projection=proj_behaviour,
-                       oracles=[P.o_views, P.o_no_defect_panic])
+                       oracles=[P.o_spec, P.o_views, P.o_no_defect_panic])
 REGISTRY["C20"] = dict(level="proof", theorems=[], cases=P.cases_C20, projection=proj_physical,
-                       oracles=[P.o_reloc, P.o_views])
+                       oracles=[P.o_spec, P.o_reloc, P.o_views])
